@@ -142,3 +142,41 @@ Theorem C04_zero_length_segment_kept_witness :
     @grid_integrated RNum f3_dist clamp true fixdl fixz [0; 1] [0; 1] [(/2, /2); (/2, /2)] [[5]] = [[5]].
 Proof. exact zero_length_kept_when_fixed. Qed.
 Print Assumptions C04_zero_length_segment_kept_witness.
+
+(* ---------- crossing the antimeridian once: whole call ---------- *)
+From AV Require Import proofs.C04_Whole.
+
+(* conservation_ge for a trajectory that crosses the antimeridian ONCE, end to end: geometry -> two parts ->
+   proportional split -> piece values, for any pseudo-metric and any grid (repaired fraction rule and repaired
+   zero-length split: the behaviour of the tree since F3 / FC04a) *)
+Theorem C04_conservation_ge_crossing :
+  forall (dist : R * R -> R * R -> R),
+    (forall p q, 0 <= dist p q) ->
+    (forall p q r, dist p r <= dist p q + dist q r) ->
+    forall clamp fixdl (glat glon : list R) (pts : list (R * R)) (var : list R),
+      count_nonzero (@crossings RNum (map snd pts)) = 1%nat ->
+      length var = length (pairs pts) ->
+      Forall (fun v => 0 <= v) var ->
+      forall out, @grid_integrated RNum dist clamp true fixdl true glat glon pts [var] = [out] ->
+                  Rsum var <= Rsum out.
+Proof. exact grid_total_ge_crossing. Qed.
+Print Assumptions C04_conservation_ge_crossing.
+
+(* under the additive L1 metric the chain of EVERY admissible segment is exactly as long as the segment, so its
+   pieces add up to exactly its value (conservation_exact_on_additive_length is not vacuous) *)
+Theorem C04_l1_chain_exact :
+  forall clamp (glat glon : list R) (lat0 lon0 lat1 lon1 : R),
+    incr glat -> incr glon ->
+    okx clamp glat lat0 -> okx clamp glat lat1 -> okx clamp glon lon0 -> okx clamp glon lon1 ->
+    Rsum (chain_dists f3_dist (chain clamp glat glon lat0 lon0 lat1 lon1)) = f3_dist (lat0, lon0) (lat1, lon1).
+Proof. exact l1_chain_exact. Qed.
+Print Assumptions C04_l1_chain_exact.
+
+(* a concrete whole call: 6 units on a segment crossing two latitude lines and one longitude line are gridded
+   into FOUR pieces adding up to exactly 6 *)
+Example C04_four_piece_segment_exact :
+  exists out,
+    @grid_integrated RNum f3_dist false true true true [0; 1; 2; 3] [0; 1; 2; 3] [(/2, /2); (5/2, 2)] [[6]] = [out] /\
+    length out = 4%nat /\ Rsum out = 6.
+Proof. exact ex_four_pieces_exact. Qed.
+Print Assumptions C04_four_piece_segment_exact.
